@@ -1,7 +1,7 @@
 (* C02 — acknowledged writes survive a process crash, in commit order.
    The journal part is a theorem; the interplay with tables, flush and eviction is decided by crash enumeration
    on the real code (py/props/c02.py). *)
-From FJ Require Import Bytes Codec Reader ReaderP Writer WriterP DurableP.
+From FJ Require Import Bytes Codec Reader ReaderP Writer WriterP DurableP Lsm Tracker Db RecoverP.
 
 (* with automatic journal persist every write is followed by persist(Buffer) before it is acknowledged:
    the bytes of every acknowledged batch have been handed to the OS *)
@@ -28,5 +28,20 @@ Theorem C02_journal_recovers_acknowledged_prefix :
     /\ exists k, rest = firstn k bs2.
 Proof. intros. apply durable_batches_recovered; assumption. Qed.
 
+(* model level (Db.v): an acknowledged insert / remove / clear has appended exactly its own batch, with the seqno it was
+   applied with, to the active journal — together with C04_uncovered_records_replayed_partial this is why replay brings
+   it back.  PARTIAL: single operations; batches and transaction commits go through the same commit_batch. *)
+Theorem C02_acknowledged_write_is_journaled_partial : forall d id k v vt mvt d',
+  write_one d id k v vt mvt = (d', ObOk) ->
+  d_active d' = d_active d ++ [mk_batch (d_seqno d) [{| ri_ks := id; ri_key := k; ri_value := v; ri_vt := vt |}] []] /\
+  d_seqno d' = d_seqno d + 1 /\ d_sealed d' = d_sealed d.
+Proof. exact write_one_journaled. Qed.
+
+Theorem C02_acknowledged_clear_is_journaled_partial : forall d id d',
+  do_clear d id = (d', ObOk) -> d_active d' = d_active d ++ [mk_batch (d_seqno d) [] [id]].
+Proof. exact clear_journaled. Qed.
+
 Print Assumptions C02_acknowledged_bytes_reach_the_os.
 Print Assumptions C02_journal_recovers_acknowledged_prefix.
+Print Assumptions C02_acknowledged_write_is_journaled_partial.
+Print Assumptions C02_acknowledged_clear_is_journaled_partial.
